@@ -52,6 +52,7 @@ RUNTIME_TRUST = ["sync.Mutex / sync.WaitGroup / context cancellation / go statem
 
 PROPS = {
     "C01": {
+        "inventory_closure": True,
         "lean": ["GldapModel.Props.C01"],
         "audit": "GldapModel/Audit/C01.lean",
         "inventory": DECODE_FUNCS,
@@ -69,14 +70,16 @@ PROPS = {
                       "Mux.Modify", "Mux.Add", "Mux.Delete", "Mux.DefaultRoute", "NewMux", "baseRoute.handler", "baseRoute.op",
                       "baseRoute.match", "deleteRoute.match", "addRoute.match", "modifyRoute.match", "simpleBindRoute.match",
                       "extendedRoute.match", "searchRoute.match", "newRequest", "WithBaseDN", "WithFilter", "WithScope",
-                      "getRouteOpts", "routeDefaults"],
+                      "getRouteOpts", "routeDefaults", "conn.serveRequests", "Request.NewResponse"],
         "streams": [
             {"stream": "mux", "n_quick": 30000, "n_thorough": 1500000},
+            {"stream": "c06", "n_quick": 12, "n_thorough": 300, "timeout_quick": 900, "timeout_thorough": 6000},
         ],
         "trusted": BER_TRUST + ["strings.EqualFold modelled for ASCII only (criteria alphabets are ASCII)"],
         "assumptions": ["route criteria and request strings are ASCII in the theorems' EqualFold model"],
     },
     "C04": {
+        "inventory_closure": True,
         "lean": ["GldapModel.Props.C04"],
         "audit": "GldapModel/Audit/C04.lean",
         "inventory": RESPONSE_FUNCS,
@@ -87,6 +90,7 @@ PROPS = {
         "assumptions": ["WithAttributes maps are restricted to at most one key in the byte-exact stream, because Go map iteration order is random; multi-key maps are covered by the newentry stream and by the multiset oracle"],
     },
     "C16": {
+        "inventory_closure": True,
         "lean": ["GldapModel.Props.C16"],
         "audit": "GldapModel/Audit/C16.lean",
         "inventory": HELPER_FUNCS,
@@ -96,6 +100,7 @@ PROPS = {
             {"stream": "newentry", "n_quick": 4000, "n_thorough": 250000},
             {"stream": "resp", "n_quick": 8000, "n_thorough": 100000},
             {"stream": "behera-ctor", "n_quick": 3000, "n_thorough": 50000},
+            {"stream": "mux", "n_quick": 5000, "n_thorough": 100000},
         ],
         "trusted": ["encoding/binary, sort.Strings, fmt %d re-implemented at byte level in the model and diffed against the real ones"],
         "assumptions": [],
@@ -136,7 +141,7 @@ PROPS = {
     },
     "C06": {
         "lean": ["GldapModel.Props.C06"], "audit": "GldapModel/Audit/C06.lean",
-        "inventory": ["conn.serveRequests", "conn.readRequest", "newRequest", "Request.ConnectionID"],
+        "inventory": ["conn.serveRequests", "conn.readRequest", "newRequest", "Request.ConnectionID", "Mux.serve", "conn.initConn", "sites.go"],
         "streams": [{"stream": "c06", "n_quick": 40, "n_thorough": 2000, "timeout_quick": 900, "timeout_thorough": 6000}],
         "trusted": RUNTIME_TRUST,
         "assumptions": ["partial: that the Go scheduler actually runs a spawned goroutine is observed only by the rendezvous oracle"],
@@ -150,8 +155,10 @@ PROPS = {
     },
     "C08": {
         "lean": ["GldapModel.Props.C08"], "audit": "GldapModel/Audit/C08.lean",
-        "inventory": LIFECYCLE_FUNCS,
-        "streams": [{"stream": "c08", "n_quick": 40, "n_thorough": 2000, "timeout_quick": 900, "timeout_thorough": 6000}],
+        "inventory": LIFECYCLE_FUNCS + ["Request.StartTLS", "ResponseWriter.Write", "sites.connwriter"],
+        "streams": [{"stream": "c08", "n_quick": 40, "n_thorough": 2000, "timeout_quick": 900, "timeout_thorough": 6000},
+                    # connections whose handlers are stuck writing when the read loop has ended (corpus) and Stop comes
+                    {"stream": "c11", "n_quick": 8, "n_thorough": 100, "timeout_quick": 900, "timeout_thorough": 6000}],
         "trusted": RUNTIME_TRUST,
         "assumptions": ["partial: goroutine and descriptor accounting is observed by the oracle only"],
     },
@@ -190,7 +197,7 @@ PROPS = {
     },
     "C13": {
         "lean": ["GldapModel.Props.C13"], "audit": "GldapModel/Audit/C13.lean",
-        "inventory": ["conn.serveRequests", "conn.initConn", "Request.StartTLS", "conn.readPacket", "newResponseWriter", "ResponseWriter.Write",
+        "inventory": ["conn.serveRequests", "conn.initConn", "Request.StartTLS", "conn.readPacket", "newResponseWriter", "ResponseWriter.Write", "Mux.serve",
                       "sites.connwriter", "sites.deadline", "sites.go"],
         "streams": [{"stream": "c13", "n_quick": 30, "n_thorough": 1000, "timeout_quick": 900, "timeout_thorough": 6000}],
         "trusted": RUNTIME_TRUST + ["crypto/tls: after a successful handshake every byte on the connection is TLS-protected"],
@@ -198,7 +205,7 @@ PROPS = {
     },
     "C18": {
         "lean": ["GldapModel.Props.C18"], "audit": "GldapModel/Audit/C18.lean",
-        "inventory": ["Server.Run", "td.GetTLSConfig", "WithTLSConfig", "td.WithMTLS"],
+        "inventory": ["Server.Run", "td.GetTLSConfig", "WithTLSConfig", "td.WithMTLS", "newConn", "conn.initConn", "getConfigOpts", "sites.go"],
         "streams": [{"stream": "c18", "n_quick": 30, "n_thorough": 1000, "timeout_quick": 900, "timeout_thorough": 6000}],
         "trusted": RUNTIME_TRUST + ["crypto/tls: a read yields plaintext only after a handshake satisfying the tls.Config (`beh` in the model)"],
         "assumptions": ["partial: the handshake verdict is crypto/tls's; the model covers the plumbing (listener wrapped before the accept loop, loop accepts on the wrapped listener, WithMTLS sets RequireAndVerifyClientCert and the CA pool)"],
@@ -226,9 +233,10 @@ PROPS = {
         "assumptions": ["partial: the access table is extracted syntactically (receiver-variable heuristics, intraprocedural lock sets plus caller-holds propagation); accesses through closures handed to other packages or reflection are invisible to it; the memory model itself is only exercised by the race detector"],
     },
     "C14": {
+        "inventory_closure": True,
         "lean": ["GldapModel.Props.C14"],
         "audit": "GldapModel/Audit/C14.lean",
-        "inventory": CONTROL_FUNCS,
+        "inventory": CONTROL_FUNCS + ["newRequest", "newMessage", "BindResponse.SetControls", "SearchResponseDone.SetControls"],
         "streams": [
             {"stream": "ctrl-encode", "n_quick": 20000, "n_thorough": 1500000},
             {"stream": "behera-ctor", "n_quick": 8000, "n_thorough": 500000},
@@ -237,6 +245,7 @@ PROPS = {
         "assumptions": ["strconv.FormatInt/ParseInt are modelled at byte level (Proofs/Decimal.lean)"],
     },
     "C02": {
+        "inventory_closure": True,
         "lean": ["GldapModel.Props.C02"],
         "audit": "GldapModel/Audit/C02.lean",
         "inventory": DECODE_FUNCS,
